@@ -83,6 +83,12 @@ pub fn main(seed: u64, part: &str, n: u64) -> i32 {
             // unsynchronised process-wide state used inside a single instruction is exercised by all
             // threads, followed by generated ones
             let coverage: Vec<String> = [
+                // the very first evaluations of the process happen on three threads at once (lazily
+                // initialised process-wide tables are filled under contention), with identifiers and
+                // text outside ASCII
+                "stel één = 40 + 2; één",
+                "stel café = [1.5, \"ß\"]; café",
+                "functie él(ñ) { [ñ, lengte(ñ)] } él(\"üö\")",
                 "stel s = \"hallo\"; stel r = [s[0], s[1], s[-1], \"日本\"[1]]; s[0] = \"J\"; [r, s, lengte(s), lengte(r)]",
                 "stel a = [1, \"a\", 2.5]; a[0] = [a[1], a[2]]; functie f(x) { [x, string(7), type(x)] }; [f(a), f(1.5), f(\"z\")]",
                 // no print here: stdout's lock would order the threads (a happens-before edge hides races)
@@ -110,26 +116,34 @@ pub fn main(seed: u64, part: &str, n: u64) -> i32 {
                 .collect();
             // No hooks here (main does not install them for this part): the harness's own locks would
             // order the threads and hide a race from Miri's detector.
-            let expect: Vec<String> = progs.iter().map(|p| bare_digest(p)).collect();
+            // the threads go first; what each evaluation should have given is computed afterwards, on
+            // the main thread alone
             let mut hs = Vec::new();
             for t in 0..3usize {
                 let progs = progs.clone();
-                let expect = expect.clone();
                 hs.push(std::thread::spawn(move || {
-                    let mut bad = 0;
+                    let mut got: Vec<(usize, String)> = Vec::new();
                     for k in 0..progs.len() {
                         let i = (k + t) % progs.len();
-                        let d = bare_digest(&progs[i]);
-                        if d != expect[i] {
-                            println!("thread {} program {}: {} != {}", t, i, d, expect[i]);
-                            bad += 1;
-                        }
+                        got.push((i, bare_digest(&progs[i])));
                     }
-                    bad
+                    got
                 }));
             }
-            for h in hs {
-                problems += h.join().unwrap_or(1);
+            let results: Vec<Option<Vec<(usize, String)>>> = hs.into_iter().map(|h| h.join().ok()).collect();
+            let expect: Vec<String> = progs.iter().map(|p| bare_digest(p)).collect();
+            for (t, r) in results.into_iter().enumerate() {
+                match r {
+                    None => problems += 1,
+                    Some(got) => {
+                        for (i, d) in got {
+                            if d != expect[i] {
+                                println!("thread {} program {}: {} != {}", t, i, d, expect[i]);
+                                problems += 1;
+                            }
+                        }
+                    }
+                }
             }
         }
         _ => return 2,
